@@ -7,31 +7,66 @@ CONSTANTS
     MaxQ,         \* state constraint: queue length
     MaxReq,       \* state constraint: number of requests / calls
     MaxPings,     \* state constraint: outstanding ping tasks
-    EnvAnytime    \* BOOLEAN: environment actions may interleave with internal ones
+    MaxEv,        \* state constraint: events per session
+    EnvAnytime,   \* BOOLEAN: environment actions may interleave with internal ones
+    BodyProfile,  \* which POST bodies the environment may send
+    FrameProfile  \* which websocket frames the environment may send
 
 PostBodies ==
-    {<<"PONG">>, <<"m1">>, <<"CLOSE">>, <<"UPGRADE">>, <<"BAD">>, <<"GARBAGE">>, <<"OVERSIZE">>,
-     <<"m1", "CLOSE">>, <<"CLOSE", "m1">>, <<"CLOSE", "UPGRADE">>, <<"mE1">>, <<"BAD", "m1">>,
-     <<"m1", "BAD">>}
-SmallBodies == {<<"PONG">>, <<"m1">>, <<"CLOSE">>}
-Frames == {"PINGprobe", "UPGRADE", "PONG", "m1", "CLOSE", "BAD", "OVERSIZE", "EMPTY", "PINGx"}
+    CASE BodyProfile = "pong"  -> {<<"PONG">>}
+      [] BodyProfile = "msg"   -> {<<"PONG">>, <<"m1">>, <<"CLOSE">>}
+      [] BodyProfile = "close" -> {<<"CLOSE">>, <<"m1", "CLOSE">>, <<"CLOSE", "m1">>, <<"BAD">>,
+                                   <<"OVERSIZE">>}
+      [] BodyProfile = "types" -> {<<"PONG">>, <<"m1">>, <<"CLOSE">>, <<"UPGRADE">>, <<"BAD">>,
+                                   <<"GARBAGE">>, <<"OVERSIZE">>, <<"m1", "CLOSE">>,
+                                   <<"CLOSE", "m1">>, <<"CLOSE", "UPGRADE">>, <<"mE1">>,
+                                   <<"BAD", "m1">>, <<"m1", "BAD">>}
+      [] OTHER -> {}
+Frames ==
+    CASE FrameProfile = "handshake" -> {"PINGprobe", "UPGRADE", "m1", "OVERSIZE"}
+      [] FrameProfile = "steady"    -> {"PINGprobe", "UPGRADE", "PONG", "m1", "CLOSE"}
+      [] FrameProfile = "all"       -> {"PINGprobe", "UPGRADE", "PONG", "m1", "CLOSE", "BAD",
+                                        "OVERSIZE", "EMPTY", "PINGx"}
+      [] OTHER -> {}
 
 EnvOK == EnvAnytime \/ Quiescent
 
-EnvNext ==
-    /\ EnvOK
-    /\ \/ "open" \in Alpha /\ \E h \in BOOLEAN : OpenPolling("accept", h)
-       \/ "reject" \in Alpha /\ \E h \in BOOLEAN : OpenPolling("reject", h)
-       \/ "openws" \in Alpha /\ OpenWs("accept", FALSE)
-       \/ "poll" \in Alpha /\ \E s \in Sid : PollReq(s)
-       \/ "post" \in Alpha /\ \E s \in Sid, b \in PostBodies : PostReq(s, b)
-       \/ "pong" \in Alpha /\ \E s \in Sid, b \in SmallBodies : PostReq(s, b)
-       \/ "upgrade" \in Alpha /\ \E s \in Sid : UpgradeReq(s)
-       \/ "wsio" \in Alpha /\ \E s \in Sid, f \in Frames : WsFrame(s, f)
-       \/ "wsio" \in Alpha /\ \E s \in Sid : WsDrop(s)
-       \/ "send" \in Alpha /\ \E s \in Sid : AppSend(s)
-       \/ "api" \in Alpha /\ \E s \in Sid : AppDisconnect(s)
-       \/ "sess" \in Alpha /\ \E s \in Sid : AppSaveSession(s, s) \/ AppGetSession(s)
+\* the environment alphabet as a set of action descriptors
+EnvActs ==
+    (IF "open" \in Alpha THEN {[op |-> "open", outcome |-> "accept", hsend |-> h] : h \in BOOLEAN}
+     ELSE {})
+    \cup (IF "reject" \in Alpha
+          THEN {[op |-> "open", outcome |-> "reject", hsend |-> h] : h \in BOOLEAN} ELSE {})
+    \cup (IF "openws" \in Alpha
+          THEN {[op |-> "openws", outcome |-> "accept", hsend |-> h] : h \in BOOLEAN} ELSE {})
+    \cup (IF "poll" \in Alpha THEN {[op |-> "poll", s |-> s] : s \in Sid} ELSE {})
+    \cup (IF "post" \in Alpha THEN {[op |-> "post", s |-> s, body |-> b] : s \in Sid, b \in PostBodies}
+          ELSE {})
+    \cup (IF "upgrade" \in Alpha THEN {[op |-> "upgrade", s |-> s] : s \in Sid} ELSE {})
+    \cup (IF "wsio" \in Alpha THEN {[op |-> "wsframe", s |-> s, f |-> f] : s \in Sid, f \in Frames}
+          ELSE {})
+    \cup (IF "wsio" \in Alpha THEN {[op |-> "wsdrop", s |-> s] : s \in Sid} ELSE {})
+    \cup (IF "send" \in Alpha THEN {[op |-> "send", s |-> s] : s \in Sid} ELSE {})
+    \cup (IF "api" \in Alpha THEN {[op |-> "disconnect", s |-> s] : s \in Sid} ELSE {})
+    \cup (IF "sess" \in Alpha THEN {[op |-> "save", s |-> s, tok |-> s] : s \in Sid}
+                                  \cup {[op |-> "get", s |-> s] : s \in Sid} ELSE {})
+
+Do(a) ==
+    CASE a.op = "open"    -> OpenPolling(a.outcome, a.hsend)
+      [] a.op = "openws"  -> OpenWs(a.outcome, a.hsend)
+      [] a.op = "poll"    -> PollReq(a.s)
+      [] a.op = "post"    -> PostReq(a.s, a.body)
+      [] a.op = "upgrade" -> UpgradeReq(a.s)
+      [] a.op = "wsframe" -> WsFrame(a.s, a.f)
+      [] a.op = "wsdrop"  -> WsDrop(a.s)
+      [] a.op = "send"    -> AppSend(a.s)
+      [] a.op = "disconnect" -> AppDisconnect(a.s)
+      [] a.op = "save"    -> AppSaveSession(a.s, a.tok)
+      [] a.op = "get"     -> AppGetSession(a.s)
+      [] a.op = "tick"    -> TickTo(a.t)
+      [] OTHER            -> FALSE
+
+EnvNext == EnvOK /\ \E a \in EnvActs : Do(a)
 
 Next == EnvNext \/ Internal \/ ("tick" \in Alpha /\ TickTo(now + 1))
 
@@ -44,6 +79,7 @@ Bound ==
     /\ \A s \in Sid : g.pstart[s] <= 2
     /\ Len(g.hq) <= 2
     /\ \A s \in Sid : Len(wsin[s]) <= 2
+    /\ \A s \in Sid : Len(g.ev[s]) <= MaxEv
 
 View == <<now, [g EXCEPT !.out = <<>>], polls, psleep, wsr, wsin, wsw, wsgone, joiners, mon>>
 =============================================================================
